@@ -52,6 +52,14 @@ class Defs:
         for n in ast.walk(func):
             if isinstance(n, ast.Assign):
                 for t in n.targets:
+                    if isinstance(t, (ast.Tuple, ast.List)) and isinstance(
+                            n.value, (ast.Tuple, ast.List)) and len(
+                            t.elts) == len(n.value.elts) and all(
+                            isinstance(e, ast.Name) for e in t.elts):
+                        # a, b = x, y  ==  a = x; b = y
+                        for e, v in zip(t.elts, n.value.elts):
+                            self._add(Binding(e.id, "assign", v, n, e))
+                        continue
                     for nm in _targets(t):
                         self._add(Binding(nm.id, "assign", n.value, n, t))
             elif isinstance(n, ast.AnnAssign) and isinstance(n.target, ast.Name):
